@@ -93,9 +93,10 @@ def gen_attrs(rnd, tb, depth=2, reuse=0.0):
     def control():
         k = rnd.randrange(7)
         if k == 0:
-            return d.Include(path="/tmp/a.sp")
+            # (paths go out as the text of the Sim's path: `..` components and relative forms stay as they are)
+            return d.Include(path=rnd.choice(["/tmp/a.sp", "models/../corners/a.sp", "../up/a.sp", "/pdk/v1/../v2/a.sp", "a.sp"]))
         if k == 1:
-            return d.Lib(path="/tmp/b.lib", section="tt")
+            return d.Lib(path=rnd.choice(["/tmp/b.lib", "libs/../b.lib", "../../b.lib", "/pdk/x/../b.lib"]), section="tt")
         if k == 2:
             return d.Save(rnd.choice([d.SaveMode.ALL, d.SaveMode.NONE, tb.s, [tb.s, tb.t], "xtop.n1", ["a", "b", "c"]]))
         if k == 3:
@@ -202,14 +203,28 @@ def check_sim(case):
             sims.append(s)
         else:
             ns = {"tb": tb}
+            keys = []
             for j, a in enumerate(attrs):
-                ns[f"attr{j}"] = a
+                # class attributes are called anything a designer may call them - also with leading underscores;
+                # only the single underscore is the documented "leave it unnamed"
+                key = rnd.choice([f"attr{j}", f"attr{j}", f"_p{j}", f"_{j}x", "_" if j == 0 else f"m{j}_"])
+                keys.append(key)
+                ns[key] = a
             cls = type("ClsSim", (), ns)
+            before = [getattr(a, "name", None) for a in attrs]
             try:
                 sims.append(hs.sim(cls))
             except Exception as e:
                 return (f"class-style.raises.{type(e).__name__}", f"{case}: class-defined Sim rejected: "
                                                                  f"{type(e).__name__}: {str(e)[:120]}", w)
+            # the class-defined form: an attribute goes by the name it is assigned to (documented: all but `_`; literals
+            # have no name) - checked on objects that occur once among the attributes
+            for key, a, was in zip(keys, attrs, before):
+                if isinstance(a, h.Literal) or sum(1 for b in attrs if b is a) != 1:
+                    continue
+                want = was if key == "_" else key
+                if getattr(a, "name", None) != want:
+                    return ("class-style.name", f"{case}: attribute assigned to `{key}` is named {getattr(a, 'name', None)!r}", w)
     try:
         out = hs.to_proto(sims if nsims > 1 else sims[0])
     except Exception as e:
